@@ -135,16 +135,22 @@ func (k msgServer) Complete(goCtx context.Context, msg *types.MsgComplete) (*typ
 			return nil, err
 		}
 		k.order.RemoveShard(ctx, oldShard.Id)
-		if len(oldShard.RenewInfos) > 1 {
-			for i := 0; i < len(oldShard.RenewInfos)-1; i++ {
-				order, _ := k.order.GetOrder(ctx, oldShard.RenewInfos[i].OrderId)
+		// every pending renewal order lists the old shard too, whether it was bought before or
+		// after the migration started
+		for i := 0; i < len(oldShard.RenewInfos); i++ {
+			renewOrderId := oldShard.RenewInfos[i].OrderId
+			if renewOrderId == order.Id || renewOrderId == orderInProgress.Id {
+				continue
+			}
+			order, found := k.order.GetOrder(ctx, renewOrderId)
+			if found {
 				orderList = append(orderList, &order)
 			}
 		}
 		for i, order := range orderList {
 			newShards := make([]uint64, 0)
 			for _, id := range order.Shards {
-				if id != oldShard.Id {
+				if id != oldShard.Id && (i == 0 || id != shard.Id) {
 					newShards = append(newShards, id)
 				}
 			}
